@@ -109,6 +109,13 @@ def build_population(rng):
             if rng.random() < 0.7:
                 d["stamped_at"] = rng.choice(forms)          # a timestamp only dictionaries hold (no library object has the property)
             items.append(d)
+        if k == 1 and rng.random() < 0.7:
+            # ... and dictionaries whose type name goes on after a dot (the stores keep unregistered content as given): to a type / id
+            # filter they are other types and other ids than the ones they begin with
+            for suffix in (".v2", ".json"):
+                dsid = "x-unregistered%s--%s" % (suffix, sid.split("--", 1)[1])
+                items.append({"type": "x-unregistered" + suffix, "id": dsid, "created": "2020-01-01T00:00:00.000Z", "modified": "2020-01-01T00:00:00.000Z",
+                              "name": "dotted type name", "labels": ["l1"], "confidence": 50})
         if k == 0 and rng.random() < 0.6:
             # ... and one without `modified` (a flat file in the same type directory), stored and asked for first
             items.insert(0, {"type": "x-unregistered", "id": g.new_id("x-unregistered"), "name": "unversioned", "labels": ["l1"], "stixmon_first": True})
@@ -361,8 +368,15 @@ def wl_random(ctx, rng, i):
         mem, fs, model = make_stores(rng, objs, tmp)
         case = {"population": len(model.items), "types": sorted({j["type"] for j in model.items})}
         stores = [("MemoryStore", mem.source), ("FileSystemStore", fs.source)]
-        for q in range(12):
-            filters = [gen_filter(rng, model) for _ in range(rng.choice([1, 1, 2, 2, 3]))]
+        # filters on a type / id which other stored types / ids merely begin with
+        aimed = []
+        for j in model.items:
+            if "." in j["type"]:
+                stem_t, stem_i = j["type"].split(".", 1)[0], j["id"].replace(j["type"], j["type"].split(".", 1)[0], 1)
+                aimed += [[("type", "!=", stem_t)], [("id", "!=", stem_i)], [("type", "=", stem_t)], [("type", "in", [stem_t, "identity"])], [("id", "=", stem_i)]]
+        rng.shuffle(aimed)
+        for q in range(12 + min(3, len(aimed))):
+            filters = [gen_filter(rng, model) for _ in range(rng.choice([1, 1, 2, 2, 3]))] if q < 12 else aimed[q - 12]
             try:
                 exp = evaluate(filters, model.items, TS_PROPS)
                 parts = [evaluate([f], model.items, TS_PROPS) for f in filters]
